@@ -75,6 +75,9 @@ def gen_case(rnd, spec):
         })
         if plugins[-1]["plain"]:
             plugins[-1]["required"] = False
+        elif (before or after) and rnd.random() < 0.25:
+            # the digest function happens to be called like one of the sections it refers to (def pipeline(...) for section "monitoring")
+            plugins[-1]["funcname"] = rnd.choice(before + after)
     if plugins and rnd.random() < 0.15:
         # the same callable installed under a second section name (as `builtins:dict` may be): two plugins, one digest
         twin = dict(rnd.choice(plugins))
@@ -89,7 +92,9 @@ def gen_case(rnd, spec):
         elif rnd.random() < 0.7:
             config[p["section"]] = rnd.choice([{"a": 1}, [1, 2, {"b": None}], "text", 0, None, {}, [], {"nested": {"deep": [1.5, True]}},
                                                # live objects inside the content (what a YAML tag builds): handed on as they are
-                                               {"built": "<opaque>"}, ["<opaque>", {"guard": "<lock>"}]])
+                                               {"built": "<opaque>"}, ["<opaque>", {"guard": "<lock>"}],
+                                               # the whole section is something else than JSON-like data: what a !Tag built, a date, a set
+                                               "<opaque>", "<date>", "<bytes>", "<tuple>", "<set>"])
     unknown = []
     if rnd.random() < 0.3:
         unknown = rnd.sample(["typo", "pipelin", "extra", "Logging", "__anchors__", "__", "____", "__type__", ".hidden", "_private", "logging ", "", "0"], rnd.randint(1, 2))
@@ -203,13 +208,23 @@ def execute(case, result):
             return Opaque()
         if value == "<lock>":
             return threading.Lock()
+        if value == "<date>":
+            import datetime
+
+            return datetime.date(2024, 2, 29)
+        if value == "<bytes>":
+            return b"\x00raw"
+        if value == "<tuple>":
+            return (1, "two")
+        if value == "<set>":
+            return {"x", "y"}
         if isinstance(value, dict):
             return {k: realise(v) for k, v in value.items()}
         if isinstance(value, list):
             return [realise(v) for v in value]
         return value
 
-    live = "<opaque>" in repr(case["config"]) or "<lock>" in repr(case["config"])
+    live = any(marker in repr(case["config"]) for marker in ("<opaque>", "<lock>", "<date>", "<bytes>", "<tuple>", "<set>"))
     via_yaml = case["via_yaml"] and not live
     config = {k: realise(v) for k, v in case["config"].items()}
     if live:
